@@ -130,10 +130,14 @@ class FSM:
         self.login_disabled = tls_offered and not local
         self.existing = {'INBOX', 'Sent', 'Trash'}
         self.ro_boxes = {'Trash'}
+        # consecutive commands answered BAD; pymap hangs up (BYE) once its
+        # --bad-command-limit (5 in these worlds) is reached
+        self.bad_run = 0
 
     def key(self):
         return (self.state, self.user, self.mailbox, self.readonly,
-                self.tls_done, self.login_disabled, tuple(sorted(self.existing)))
+                self.tls_done, self.login_disabled,
+                tuple(sorted(self.existing)), self.bad_run)
 
     def predict(self, ev):
         """-> (admissible tagged conditions, list of admissible next control
@@ -206,6 +210,13 @@ class FSM:
     def advance(self, ev, cond, observed):
         """Move the model to the admissible next state that was observed."""
         st, mbx, ro = observed
+        # (pymap counts BAD responses and resets on a completed command; NO
+        # answers raised as errors do not reset it: reset on OK only, so the
+        # model's count is never below the server's)
+        if cond == 'BAD':
+            self.bad_run += 1
+        elif cond == 'OK':
+            self.bad_run = 0
         if ev.get('starttls') and cond == 'OK':
             self.tls_done = True
             self.login_disabled = False
@@ -311,6 +322,14 @@ class Model:
             fsm.advance(ev, None, obs)
             return out
         cond = st.cond
+        hung_up = False
+        if cond == 'BAD' and fsm.bad_run + 1 >= BAD_LIMIT and obs[0] == 'X' \
+                and any(r.kind == 'untagged' and r.name == 'BYE'
+                        for r in st.responses):
+            # too many consecutive errors: BYE and disconnect is the
+            # documented reaction, not an effect of the refused command
+            hung_up = True
+            nexts = nexts + [obs]
         if cond not in conds:
             bad('wrong-condition',
                 f'{ev["name"]} in state {fsm.state}: got {cond} '
@@ -320,6 +339,9 @@ class Model:
                 f'{ev["name"]} in state {(fsm.state, fsm.mailbox, fsm.readonly)}'
                 f' -> {obs}, admissible {nexts}')
         after = effect_key(ctx)
+        if hung_up:
+            # compare the data only: the connection is gone by design
+            before, after = before[0], after[0]
         if (unchanged or (cond in ('NO', 'BAD') and 'select' not in ev)) \
                 and after != before:
             bad('refused-but-changed',
@@ -409,6 +431,7 @@ class Model:
         ctx.show_last()
 
 
+BAD_LIMIT = 5
 CONFIGS = [(False, False), (True, False), (True, True), (False, True)]
 
 # ---- delivery timing: the same command sequence, delivered differently -------
